@@ -141,11 +141,23 @@ def array_walk(simname='Simulation', aw=1, dw=2, pre=(), seed=0, max_steps=6000,
                 space=space, exhaustive=bool(small and len(seen) == space))
 
 
-def rom_check(simname='Simulation', kind='list', aw=3, dw=5, pre=()):
+def rom_check(simname='Simulation', kind='list', aw=3, dw=5, pre=(), rounds=2):
+    """the ROM is rebuilt `rounds` times in this process under the same name with different contents
+    (a history across designs: nothing may be remembered from an earlier design)"""
+    for rnd in range(rounds):
+        r = _rom_round(simname, kind, aw, dw, pre, rnd)
+        if r['failed']:
+            r['observed']['round'] = rnd
+            return r
+    return r
+
+
+def _rom_round(simname, kind, aw, dw, pre, rnd):
     import pyrtl
     from fam import passes
     pyrtl.reset_working_block()
-    table = {a: (a * 7 + 3) % (2 ** dw) for a in range(2 ** aw)}
+    mul = (7 + 4 * rnd) if dw <= 8 else (0x9E3779B97F4A7C15D + 2 * rnd)
+    table = {a: ((a * mul + 3) | ((1 << (dw - 1)) if a % 3 == 1 else 0)) % (2 ** dw) for a in range(2 ** aw)}
     if kind == 'list':
         data = [table[a] for a in range(2 ** aw)]
     elif kind == 'dict':
